@@ -82,6 +82,12 @@ impl HasNot<L, VL> for VL {
 
 /// meaning of a non-variable hyperedge label
 pub fn interp(l: L, x: &[u64], n_out: usize) -> Vec<u64> {
+    // total on purpose: an operator hyperedge wired with the wrong number of sources (a library
+    // fault, not a harness fault) gets a value no correct term can produce, so the comparison of
+    // meanings reports it instead of the harness indexing out of range
+    if ((BIN..UN).contains(&l) && x.len() != 2) || ((UN..GEN).contains(&l) && x.len() != 1) {
+        return (0..n_out.max(1) as u64).map(|j| x.iter().fold(mix(0xBAD0_A817 ^ l as u64, j), |a, v| mix(a, *v))).collect();
+    }
     if (BIN..UN).contains(&l) {
         // every binary operator of the test signature is deliberately non-commutative (the left
         // operand is rotated first), so that transposed operands change the meaning
